@@ -115,33 +115,51 @@ def r09_2(ctx, repo):
     # 'INV' = argsort(SORT)
     kind = {}
     names_src = None
+    keyed = []
+
+    def kind_of(v):
+        if isinstance(v, (ast.Name, ast.Attribute)):
+            return kind.get(U(v))
+        if isinstance(v, ast.ListComp) and 'qname' in U(v) and 'states' in U(
+                v):
+            return 'NAMES'
+        if isinstance(v, ast.Call) and U(v.func) in (
+                'np.argsort', 'numpy.argsort') and v.args:
+            k = kind_of(v.args[0])
+            return {'NAMES': 'SORT', 'SORT': 'INV', 'INV': 'SORT'}.get(k)
+        if isinstance(v, ast.Call) and U(v.func) in (
+                'np.array', 'np.asarray', 'list') and v.args:
+            return kind_of(v.args[0])
+        if isinstance(v, ast.Call) and U(v.func) in ('sorted', 'np.sort') \
+                and v.args and kind_of(v.args[0]) == 'NAMES':
+            extra = [k for k in v.keywords if k.arg in ('key', 'reverse')
+                     and not (k.arg == 'reverse' and isinstance(
+                         k.value, ast.Constant) and k.value.value is False)]
+            if extra:
+                keyed.append((v, extra[0]))
+            return 'SORTED_NAMES'
+        return None
     for s in fn.body:
         if not isinstance(s, ast.Assign) or len(s.targets) != 1:
             continue
         t, v = U(s.targets[0]), s.value
-        if isinstance(v, ast.ListComp) and 'qname' in U(v) and 'states' in U(
-                v):
-            kind[t] = 'NAMES'
-            names_src = t
-        elif isinstance(v, ast.Call) and U(v.func) in ('np.argsort',
-                                                       'numpy.argsort') \
-                and v.args:
-            k = kind.get(U(v.args[0]))
-            if k == 'NAMES':
-                kind[t] = 'SORT'
-            elif k == 'SORT':
-                kind[t] = 'INV'
-            elif k == 'INV':
-                kind[t] = 'SORT'
-        elif isinstance(v, ast.Call) and U(v.func) == 'sorted' and v.args \
-                and kind.get(U(v.args[0])) == 'NAMES':
-            kind[t] = 'SORTED_NAMES'
-        elif isinstance(v, (ast.Name, ast.Attribute)) and U(v) in kind:
-            kind[t] = kind[U(v)]
+        k = kind_of(v)
+        if k is not None:
+            kind[t] = k
+            if k == 'NAMES' and isinstance(v, ast.ListComp):
+                names_src = t
     if names_src is None:
         ctx.error(rule, '%s: declaration-order state names not found'
                   % construct)
         return
+    for v, kw in keyed:
+        ctx.violation(
+            rule, repo.loc(v, CLS, fn.name), construct, 'sort key',
+            '`%s` publishes the names in an order of its own (%s=%s) while '
+            'the permutation back to the declaration order is computed with '
+            'a plain argsort of the names: the i-th entry of the state '
+            'vector is assigned to another state than the i-th published '
+            'name' % (U(v)[:50], kw.arg, U(kw.value)[:20]))
     if kind.get('self._state_names') == 'SORTED_NAMES':
         ctx.ok(rule, repo.loc(fn, CLS, fn.name), construct,
                'the published state names are the sorted copy of the list '
@@ -609,6 +627,12 @@ def r09_7(ctx, repo):
                       and any(isinstance(t, ast.Subscript) and U(
                           t.value) == 'self._output_name_map'
                           for t in a.targets)]
+            # in-place growth through the dict API is a store as well
+            stores += [c for c in ast.walk(fn) if isinstance(c, ast.Call)
+                       and isinstance(c.func, ast.Attribute)
+                       and c.func.attr in ('setdefault', 'update',
+                                           '__setitem__')
+                       and U(c.func.value) == 'self._output_name_map']
             n += 1
             where = repo.loc(rebinds[0] if rebinds else (
                 stores[0] if stores else fn), cls, fn.name)
